@@ -256,11 +256,27 @@ def containers_and_float(tier):
                 out[i] = ref(e[i], env)
             return out
         if isinstance(e, p.Call):
-            return env["f"](*[ref(c, env) for c in e.parameters])
+            return env[e.function.name](*[ref(c, env) for c in e.parameters])
         return den(e, env)
     conts = [[x, 1], [x, [y, 2]], (x, y), (x, (y, 3)), [p.Sum((x, y)), p.Product((x, 2))], ([x], (y,)), [], (), [(x, y), [y, x]],
              p.Call(f, ([x, 1],)), p.Call(f, ((x, y), 2)), p.Call(f, ([x, y], [y, x])), p.Call(f, ((x, (y, 1)),)), [p.Call(f, (x,)), p.Call(f, ((x, x),))],
              np.array([x, p.Sum((x, 1)), 3], dtype=object), np.array([[x, y], [1, p.Product((x, y))]], dtype=object)]
+    # arrays whose entries evaluate to sequences of one common length (tuples, lists, calls returning tuples, variables bound to tuples): the entries stay entries
+    for ents in ([(x, p.Sum((y, 1))), (p.Product((x, y)), 2)], [[x, y], [y, x], [1, 2]], [p.Call(p.Variable("g"), (x,)), p.Call(p.Variable("g"), (y,))],
+                 [p.Variable("t"), p.Variable("t")], [(x,), (y,)], [(x, y), p.Variable("t")]):
+        a_ = np.empty(len(ents), dtype=object)
+        for i_, en in enumerate(ents):
+            a_[i_] = en
+        conts.append(a_)
+        if len(ents) == 2:
+            a2_ = np.empty((2, 1), dtype=object)
+            a2_[0, 0], a2_[1, 0] = ents
+            conts.append(a2_)
+    for env in envs_:
+        env.update(g=lambda v: (v, v), t=(7, 8))
+
+    def arr_same(u, v):
+        return isinstance(u, np.ndarray) and u.shape == v.shape and u.dtype == v.dtype and all(type(u[i]) is type(v[i]) and u[i] == v[i] for i in np.ndindex(v.shape))
     for e in conts:
         has_list = "[" in repr(e) or isinstance(e, np.ndarray)     # a list or an array somewhere: unhashable
         for env in envs_:
@@ -269,7 +285,7 @@ def containers_and_float(tier):
                              ("evaluate_kw", lambda: evaluate_kw(e, **env))):
                 got = outcome.run(fn)
                 b.case(("cont", repr(e)[:80], name, env["x"]), sample=dict(expr=repr(e)[:80], entry=name))
-                same = got[0] == want[0] and (got[0] == "exc" or (np.array_equal(got[1], want[1]) if isinstance(want[1], np.ndarray) else got[1] == want[1]
+                same = got[0] == want[0] and (got[0] == "exc" or (arr_same(got[1], want[1]) if isinstance(want[1], np.ndarray) else got[1] == want[1]
                                                                     and type(got[1]) is type(want[1])))
                 if not same:
                     cause = " cause=unhashable-container-in-memoizing-evaluator" if (has_list and name != "plain" and got[0] == "exc" and issubclass(got[1], TypeError)) else ""
